@@ -114,10 +114,11 @@ fn search() {
     // the grammar of the property's quantifier: prefixes x up to `depth` segments
     let prefixes = ["file:///", "file://host/", "http://h/", "http://h//", "x:", "x:/", "x://h/", "x://h//", "", "/", "//"];
     let segs = ["vfq7name", ".", "..", "", "%2e%2e", "..%2f", "vfq7a\\..\\vfq7b", "/vfq7abs", "..\\..\\vfq7x"];
-    let depth = if thorough { 4 } else { 3 };
     let mut evals = 0u64;
     let mut found = 0;
     for p in prefixes {
+        // thorough tier: four segments for the five prefix shapes that reach the writer differently, three for the others (about 125 000 writer runs)
+        let depth = if thorough && ["", "x:", "http://h/", "file:///", "//"].contains(&p) { 4 } else { 3 };
         let mut idx = vec![0usize; depth];
         loop {
             for d in 1..=depth {
